@@ -123,6 +123,12 @@ pub fn run(ctx: &Ctx) -> Report {
     for (i, e) in crate::c12::keys_of_every_size().into_iter().enumerate() {
         programs.push((format!("keys_of_every_size:{}", i), e.request.snippets[0].clone(), false));
     }
+    // a chain of 26 000 pairs built and walked (thorough tier: the checked builds collect at every allocation,
+    // which makes this one program cost a quarter of a minute): the collector's work per object must not sit
+    // on the host stack in one build and on a list in the other
+    if thorough {
+        programs.insert(0, ("chain_of_pairs:26000".to_string(), "var v = nil;\nfor i in 0..26000 { v = (i, v); }\nvar n = 0;\nvar p = v;\nwhile p != nil { n += 1; p = p[1]; }\nprint(n);\n".to_string(), false));
+    }
     let n_programs = programs.len();
     // per worker: one runner per configuration + the checked hooks runner as the gate
     let queue = Arc::new(Mutex::new(programs.into_iter()));
